@@ -447,6 +447,16 @@ declarations:
   - decl: namespace detail
     declarations:
     - decl: int depth(int n)
+- decl: template<typename T> class Box
+  cxx_template:
+  - instantiation: <int>
+  - instantiation: <double>
+  options:
+    wrap_python: false
+    wrap_lua: false
+  declarations:
+  - decl: Box()
+  - decl: T get() const
 - decl: const std::string getName()
 - decl: enum Color { RED, BLUE }
 """,
@@ -542,6 +552,7 @@ class PipelineHarness(object):
         import shroud.splicer as S
         self.rb_err = None
         self.rb_dup = None
+        self.rb_dups = {}
         for f, lines in sorted(files1.items()):
             g = group_of(f)
             objs = []
@@ -556,7 +567,7 @@ class PipelineHarness(object):
                 except RuntimeError as ex:
                     self.rb_err = "generated file %s cannot be fed back as a splicer file: %s" % (f, ex)
                     continue
-                dup = merge_missing(rb[g], tmp)
+                dup = merge_missing(rb[g], tmp, dups=self.rb_dups.setdefault(g, set()))
                 if dup and self.rb_err is None:
                     self.rb_dup = (f, dup)
             finally:
@@ -598,6 +609,10 @@ class PipelineHarness(object):
                     break
                 for name in sorted(dblocks):
                     occ = blocks[name]
+                    if len(occ) > 1 and gen_name == "generated":
+                        # two blocks of one name in one file: user code for one cannot be told from the other
+                        J.valid(False, "%s %s: block %s occurs %d times in this file" % (gen_name, fname, name, len(occ)))
+                        break
                     if len(occ) != len(dblocks[name]):
                         J.valid(False, "%s %s: block %s occurs %d times, %d by default" % (gen_name, fname, name, len(occ), len(dblocks[name])))
                         break
@@ -607,6 +622,8 @@ class PipelineHarness(object):
                             expect = user
                         else:
                             expect = dblocks[name][k]
+                            if gen_name == "regenerated" and name in self.rb_dups.get(g, ()):
+                                continue        # one name in two generated files (known finding, replayed in main)
                         if not block_equiv(J, [strip_cont(x) for x in expect], [strip_cont(x) for x in body],
                                            "%s %s block %s" % (gen_name, fname, name)):
                             break
@@ -1006,18 +1023,35 @@ def make_empty(**kw):
     return EmptyFileHarness(**kw)
 
 
-def merge_missing(dst, src, path=""):
-    """merge src into dst; returns the first block name present in both (or None)"""
+def merge_missing(dst, src, path="", dups=None):
+    """merge src into dst; returns the first block name present in both (or None); all of them go to `dups`"""
     dup = None
     for k, v in src.items():
         if isinstance(v, dict):
-            d = merge_missing(dst.setdefault(k, {}), v, path + k + ".")
+            d = merge_missing(dst.setdefault(k, {}), v, path + k + ".", dups)
             dup = dup or d
         elif k not in dst:
             dst[k] = v
         else:
             dup = dup or (path + k)
+            if dups is not None:
+                dups.add(path + k)
     return dup
+
+
+def template_splicer_collision():
+    """Known finding: the C wrappers of all instantiations of one class template name their blocks after the template
+    (class.Box.method.get in wrapBox_int.cpp and in wrapBox_double.cpp), so generated files fed back as splicer files
+    cannot keep the instantiations apart.  Returns the shared names."""
+    r = pipeline.run(pipeline.load_yaml(LIBS["geom"]))
+    where = {}
+    for f, p in r.files.items():
+        if group_of(f) != "c":
+            continue
+        blocks, err = find_blocks(split_lines(flatten(p)), comment_of(f))
+        for name in blocks or {}:
+            where.setdefault(name, set()).add(os.path.basename(f))
+    return sorted(n for n, fs in where.items() if len(fs) > 1 and n.startswith("class."))
 
 
 def make_pipeline(**kw):
@@ -1240,6 +1274,11 @@ def main():
         verdict, plain = confirm(w)
         if verdict:
             rep.known_finding("%s: user lines %r are emitted as %r" % (k["what_fails"], w["user_lines"], plain))
+    for k in known:
+        if k.get("status") == "known" and k.get("key") == "class-template-splicer-names":
+            shared = template_splicer_collision()
+            if shared:
+                rep.known_finding("%s (e.g. %s; %d names)" % (k["what_fails"], shared[0], len(shared)))
     seen = set()
     confirmed = 0
     for i, v in enumerate(total.violations):
